@@ -128,7 +128,7 @@ static int cmd_integrate(const Args& a) {
             }
         }
         // mutual couplings between live nodes of different non-static cells, each node in at most one pair
-        std::vector<Pair> pairs; std::vector<std::vector<int>> pair_of(ncells);
+        std::vector<Pair> pairs; std::vector<std::vector<int>> pair_of(ncells); std::vector<std::array<std::pair<unsigned, unsigned>, 3>> triples;
         for (int k = 0; k < ncells; k++) pair_of[k].assign(cell_tester::nodes(*cells[k]).size(), -1);
         double frac = 0;
 #if CONTACT_MODEL_INDEX == 1 || CONTACT_MODEL_INDEX == 2
@@ -153,13 +153,33 @@ static int cmd_integrate(const Args& a) {
                 pair_of[A.first][A.second] = pair_of[B.first][B.second] = (int)pairs.size();
                 pairs.push_back({A.first, A.second, B.first, B.second});
             }
+#if CONTACT_MODEL_INDEX == 2
+            // junctions: three nodes of three different cells, each coupled to the other two (every pair of the group is mutually coupled)
+            if (nonstatic_cells >= 3 && g.coin(0.7)) {
+                size_t want3 = (size_t)(g.uni(0, 0.3) * cand.size() / 3) + 1;
+                while (triples.size() < want3 && cand.size() >= 3) {
+                    auto A = cand.back(); cand.pop_back(); long jb = -1, jc = -1;
+                    for (long q = (long)cand.size() - 1; q >= 0; q--) if (cand[q].first != A.first) { jb = q; break; }
+                    if (jb < 0) break;
+                    auto B = cand[jb]; cand[jb] = cand.back(); cand.pop_back();
+                    for (long q = (long)cand.size() - 1; q >= 0; q--) if (cand[q].first != A.first && cand[q].first != B.first) { jc = q; break; }
+                    if (jc < 0) continue;
+                    auto C = cand[jc]; cand[jc] = cand.back(); cand.pop_back();
+                    std::array<std::pair<unsigned, unsigned>, 3> M = {A, B, C};
+                    for (int u = 0; u < 3; u++) for (int w = 0; w < 3; w++) if (u != w) { node& nu = cell_tester::nodes(*cells[M[u].first])[M[u].second]; const node& nw = cell_tester::nodes(*cells[M[w].first])[M[w].second];
+                        nu.set_coupled_node_and_min_distance(M[w].first, M[w].second, (nu.pos() - nw.pos()).squared_norm()); }
+                    for (int u = 0; u < 3; u++) pair_of[M[u].first][M[u].second] = 1000000 + (int)triples.size();
+                    triples.push_back(M);
+                }
+            }
+#endif
         }
 #endif
         global_simulation_parameters gp; gp.time_step_ = dt; gp.damping_coefficient_ = gamma;
         time_integration_scheme ti(gp, false);
 
         // ---- run and judge every call ---------------------------------------------------------------
-        long resolvable = 0, node_steps = 0, pair_steps = 0, static_nodes = 0, free_checked = 0, skipped_nonfinite = 0;
+        long resolvable = 0, node_steps = 0, pair_steps = 0, triple_steps = 0, static_nodes = 0, free_checked = 0, skipped_nonfinite = 0;
         double max_p = 0, max_x = 0, max_pt = 0, max_xc = 0, max_same = 0, max_t = 0;
         double rel_p = 0, rel_x = 0, rel_pt = 0, rel_xc = 0;   // error / magnitude scale of the increment, where the rounding at |p|, |x| is negligible (< 10% of the 1e-12 term)
         long explicit_like = 0, equalized = 0, kept_difference = 0;
@@ -264,6 +284,35 @@ static int cmd_integrate(const Args& a) {
                 max_same = std::max(max_same, (double)(es / tols));
                 if (!(es <= tols)) flag("coupled_same_displacement:" + CFG, "the two nodes of a mutually coupled pair received different displacements");
             }
+            // junctions of three mutually coupled nodes (contact model 2): the pair law applied to the group (means over the three members)
+            for (const auto& M : triples) {
+                V3 x[3], y[3], f[3], p[3], q[3]; R mb = 0, Xm = 0;
+                for (int u = 0; u < 3; u++) { const NS& b = before[M[u].first][M[u].second]; const NS& a2 = after[M[u].first][M[u].second]; x[u] = v3(b.x); y[u] = v3(a2.x); f[u] = v3(b.f); p[u] = v3(b.p); q[u] = v3(a2.p); mb += mass[M[u].first] / 3; Xm = std::max({Xm, x[u].norm(), y[u].norm()}); }
+                triple_steps++;
+                const V3 fb = (f[0] + f[1] + f[2]) / 3; V3 dref; R Sd;
+#if DYNAMIC_MODEL_INDEX == 0
+                const R al = gam / mb; const V3 pb = (p[0] + p[1] + p[2]) / 3; const V3 dp = (fb - pb * al) * h;
+                const V3 totref = p[0] + p[1] + p[2] + dp * 3; dref = (pb + dp) * (h / mb);
+                if (!finite3(totref) || !finite3(dref)) { skipped_nonfinite++; continue; }
+                const R pn = p[0].norm() + p[1].norm() + p[2].norm(), qn = q[0].norm() + q[1].norm() + q[2].norm();
+                const R inc = (f[0].norm() + f[1].norm() + f[2].norm() + al * pn) * h; Sd = (pn / 3 + inc / 3) * (h / mb);
+                const R tolt = REL * inc + RND * (pn + qn), et = (q[0] + q[1] + q[2] - totref).norm();
+                max_pt = std::max(max_pt, (double)(et / tolt));
+                if (!(et <= tolt)) { if (flag("junction_total_momentum:" + CFG, "total momentum of three mutually coupled nodes after the call differs from P + (F - damping*P/m_mean)*dt") && !vobs_set) { vobs_set = true;
+                    vobs.i("step", s).i("cell1", M[0].first).i("cell2", M[1].first).i("cell3", M[2].first).raw("total_after", jv3((q[0] + q[1] + q[2]).x, (q[0] + q[1] + q[2]).y, (q[0] + q[1] + q[2]).z)).raw("total_reference", jv3(totref.x, totref.y, totref.z)).d("err_over_tol", (double)(et / tolt)); } }
+#else
+                dref = fb * (h / gam); if (!finite3(dref)) { skipped_nonfinite++; continue; }
+                Sd = (f[0].norm() + f[1].norm() + f[2].norm()) / 3 * (h / gam);
+#endif
+                R worst = 0; const R told = REL * Sd + RND * Xm;
+                for (int u = 0; u < 3; u++) worst = std::max(worst, ((y[u] - x[u]) - dref).norm());
+                max_xc = std::max(max_xc, (double)(worst / told));
+                if (dref.norm() > 1e3L * EPS * Xm) resolvable++;
+                if (!(worst <= told)) { if (flag("junction_position_law:" + CFG, "displacement of three mutually coupled nodes differs from the law applied to the group (mean momentum/force, mean node mass): observed/reference = " + std::to_string((double)((y[0] - x[0]).norm() / std::max<R>(dref.norm(), 1e-300)))) && !vobs_set) { vobs_set = true;
+                    vobs.i("step", s).i("cell1", M[0].first).i("cell2", M[1].first).i("cell3", M[2].first).raw("dx1_observed", jv3((y[0] - x[0]).x, (y[0] - x[0]).y, (y[0] - x[0]).z)).raw("dx_reference", jv3(dref.x, dref.y, dref.z)).d("err_over_tol", (double)(worst / told)); } }
+                const R tols = 2 * RND * Xm + 0.1L * REL * Sd; R es = std::max({((y[0] - x[0]) - (y[1] - x[1])).norm(), ((y[0] - x[0]) - (y[2] - x[2])).norm()});
+                if (!(es <= tols)) flag("junction_same_displacement:" + CFG, "three mutually coupled nodes received different displacements");
+            }
         }
         for (int k = 0; k < ncells; k++) for (const NS& f : after[k]) sig = hash_ns(sig, f);
 
@@ -271,7 +320,7 @@ static int cmd_integrate(const Args& a) {
         long n_static = 0; for (int k = 0; k < ncells; k++) { agg.bin(CFG + ":cells_of_class:" + CLS[cls[k]]); if (is_static[k]) n_static++; }
         c.nontrivial = nonstatic_cells > 0 && resolvable > 0; c.sig = sig;
         agg.bin(CFG + ":populations"); agg.bin(CFG + ":calls", nsteps); agg.bin(CFG + ":threads=" + std::to_string(omp_get_max_threads()));
-        agg.bin(CFG + ":uncoupled_node_steps_checked", node_steps); agg.bin(CFG + ":coupled_pair_steps_checked", pair_steps); agg.bin(CFG + ":coupled_pairs", (long)pairs.size());
+        agg.bin(CFG + ":uncoupled_node_steps_checked", node_steps); agg.bin(CFG + ":coupled_pair_steps_checked", pair_steps); agg.bin(CFG + ":coupled_pairs", (long)pairs.size()); agg.bin(CFG + ":junction_steps_checked", triple_steps); agg.bin(CFG + ":junctions", (long)triples.size());
         agg.bin(CFG + ":populations_with_coupled_pairs", pairs.empty() ? 0 : 1);
         agg.bin(CFG + ":static_cells", n_static); agg.bin(CFG + ":static_node_steps_checked", static_nodes);
         agg.bin(CFG + ":free_slots_in_nonstatic_cells_checked", free_checked); agg.bin(CFG + ":free_slots_total", total_free);
